@@ -18,8 +18,11 @@ pub enum WStep {
     Accept(usize),
     /// std only: `ErrorKind::Interrupted`, nothing accepted
     Interrupted,
-    /// std only: `Ok(0)` on a non-empty buffer
+    /// std only: one `Ok(0)` on a non-empty buffer, the next call accepts again (not an error: a
+    /// caller may give up with WriteZero, as std's write_all does, or try again)
     Zero,
+    /// std only: from now on every write returns `Ok(0)` — the device is full for good
+    ZeroForever,
 }
 
 #[derive(Clone, Copy, Debug, PartialEq, Eq, Serialize, Deserialize)]
@@ -44,7 +47,11 @@ pub struct WLog {
     pub wire: Vec<u8>,
     pub calls: u64,
     pub hard_fired: bool,
+    /// a one-off Ok(0) was returned (judged on integrity, like Interrupted)
+    pub zero_once: u64,
+    /// the device has started to answer Ok(0) forever (a failure: the caller must give up)
     pub zero_fired: bool,
+    pub zero_answers: u64,
     pub flush_fired: bool,
     pub flushes: u64,
     pub interrupted: u64,
@@ -146,6 +153,10 @@ impl SimWriter {
                 return IoOut::Hard;
             }
         }
+        if log.zero_fired {
+            log.zero_answers += 1;
+            return IoOut::Ok(0);
+        }
         if log.any_fault_fired() {
             log.writes_after_fault += 1;
         }
@@ -160,8 +171,16 @@ impl SimWriter {
                 log.push_ev((b'I', at, buf.len() as u32));
                 return IoOut::Interrupted;
             }
-            WStep::Zero if std_semantics => {
+            WStep::Zero if std_semantics && self.intr_run < 2 => {
+                self.intr_run += 1;
+                log.zero_once += 1;
+                let at = log.accepted.len() as u32;
+                log.push_ev((b'z', at, buf.len() as u32));
+                return IoOut::Ok(0);
+            }
+            WStep::ZeroForever if std_semantics => {
                 log.zero_fired = true;
+                log.zero_answers += 1;
                 let at = log.accepted.len() as u32;
                 log.push_ev((b'Z', at, buf.len() as u32));
                 return IoOut::Ok(0);
